@@ -419,7 +419,8 @@ pub fn install_panic_hook() {
             "<non-string panic>".to_string()
         };
         *LAST_PANIC.lock().unwrap_or_else(|e| e.into_inner()) = Some(format!("{msg} @ {loc}"));
-        if !QUIET_PANICS.load(Ordering::Relaxed) {
+        // stay quiet only for panics that `catching` is going to capture
+        if !QUIET_PANICS.load(Ordering::Relaxed) || CATCH_DEPTH.with(|d| d.get()) == 0 {
             default(info);
         }
     }));
@@ -433,9 +434,16 @@ pub fn take_last_panic() -> Option<String> {
     LAST_PANIC.lock().unwrap_or_else(|e| e.into_inner()).take()
 }
 
+thread_local! {
+    static CATCH_DEPTH: std::cell::Cell<u32> = const { std::cell::Cell::new(0) };
+}
+
 /// Run `f`, returning Err("msg @ file:line") if it panicked.
 pub fn catching<T>(f: impl FnOnce() -> T) -> Result<T, String> {
-    match catch_unwind(AssertUnwindSafe(f)) {
+    CATCH_DEPTH.with(|d| d.set(d.get() + 1));
+    let r = catch_unwind(AssertUnwindSafe(f));
+    CATCH_DEPTH.with(|d| d.set(d.get() - 1));
+    match r {
         Ok(v) => Ok(v),
         Err(_) => Err(take_last_panic().unwrap_or_else(|| "panic".into())),
     }
